@@ -878,6 +878,8 @@ void execute( cdsmc::Scenario const& sc, std::vector<Dev> const& devs, int bound
 struct JobAcc {
     std::unordered_set<uint64_t> outcomes, nontrivial;
     std::string first_sample;
+    uint64_t split_counter = 0;     // children seen at the split depth, in DFS order (the same in every stripe)
+    int split_depth = 0;            // 0: root children are dealt to the stripes; 1: grandchildren (bounds >= 3: much better balance)
 };
 
 FILE* g_outcomes_file = nullptr;
@@ -910,7 +912,7 @@ void dfs( int sidx, cdsmc::Scenario const& sc, std::vector<Dev>& devs, int used,
     if ( x.used != used )
         die( 2, "nondeterminism", "cost of the replayed prefix is %d, expected %d", x.used, used );
 
-    bool count = depth > 0 || stripe == 0;
+    bool count = depth > acc.split_depth || stripe == 0;      // nodes above the split are executed by every stripe, counted once
     if ( count ) {
         ScStat& st = g_sc[sidx];
         st.execs.fetch_add( 1, std::memory_order_relaxed );
@@ -943,7 +945,8 @@ void dfs( int sidx, cdsmc::Scenario const& sc, std::vector<Dev>& devs, int used,
         for ( int i = 1; i < k; ++i ) {
             if ( cost[i] > remaining ) continue;
             size_t me = child++;
-            if ( depth == 0 && int( me % size_t( nstripes )) != stripe ) continue;
+            (void) me;
+            if ( depth == acc.split_depth && int( acc.split_counter++ % uint64_t( nstripes )) != stripe ) continue;
             devs.push_back( Dev{ t.point, opt[i] } );
             dfs( sidx, sc, devs, used + cost[i], bound, depth + 1, stripe, nstripes, acc, samples );
             devs.pop_back();
@@ -1151,6 +1154,7 @@ int main_run( int argc, char** argv, std::vector<Scenario>& all, Options const& 
                 Slot& sl = g_sh->slots[slot];
                 sl.scenario = jb.s; sl.fail_kind = 0;
                 JobAcc acc;
+                acc.split_depth = c >= 3 ? 1 : 0;
                 std::vector<Dev> devs;
                 int nst = c == 0 ? 1 : nstripes;
                 dfs( jb.s, scs[jb.s], devs, 0, c, 0, jb.stripe, nst, acc, jb.stripe == 0 ? samples_f : nullptr );
